@@ -476,7 +476,19 @@ def impl(case):
                "phantoms": [x.id for x in ph], "_phantoms_ok": all(phantom_ok(x) for x in ph)}
     except Exception as e:  # noqa
         smp = {"st": "err", "err": err_kind(e)}
-    return {"st": "ok", "prep": p, "sample": smp}
+    out = {"st": "ok", "prep": p, "sample": smp}
+    if vendor == "dominion" and smp["st"] == "ok" and not any(c["phantom"] for c in case["cvrs"]):
+        # the same lookup through the manifest AS READ (not passed through prep_manifest: its tabulator / batch columns may
+        # hold numbers, not strings; no cumulative column is needed for a CVR-driven lookup): same cards, same order
+        try:
+            cl2 = [CVR(id=c["id"], card_in_batch=c["cib"], phantom=c["phantom"]) for c in case["cvrs"]]
+            cards2, so2, _cs2, _ph2 = V.sample_from_cvrs(cl2, frame(vendor, case["rows"], case.get("index"), case.get("dtype")),
+                                                       list(case["sample"]))
+            out["_raw"] = {"st": "ok", "cards": [[cell(x) if x is not None else "None" for x in c] for c in cards2],
+                          "order": canon_order(so2)}
+        except Exception as e:  # noqa
+            out["_raw"] = {"st": "err", "err": err_kind(e), "msg": str(e)[:100]}
+    return out
 
 
 # ------------------------------------------------------------------------------------------- model
@@ -680,6 +692,10 @@ def oracle_c17(case, ir):
         return {"what": f"{vendor}: sample_from_cvrs on well-formed CVRs raised {smp['err']}"}
     if smp["_cvr_idx"] != list(sample):
         return {"what": f"cvr_sample holds CVRs #{smp['_cvr_idx']}, sample was {sample}"}
+    raw = ir.get("_raw")
+    if raw is not None and (raw["st"] != "ok" or raw["cards"] != smp["cards"] or raw["order"] != smp["order"]):
+        return {"what": f"{vendor}: the CVR-driven lookup through the manifest as read (columns {[type(r['tab']).__name__ for r in case['rows']][:1]}) "
+                        f"gives {raw.get('err') or raw.get('cards')}, through the prepared manifest {smp['cards']}"}
     order = {k: (a, b) for k, a, b in smp["order"]}
     idcol = 5 if vendor == "dominion" else None
     for i, s in enumerate(sample):
